@@ -1,12 +1,14 @@
 package keeper
 
 import (
+	"bytes"
 	"context"
 	"errors"
 
 	"cosmossdk.io/collections"
 	sdktypes "github.com/cosmos/cosmos-sdk/types"
 	"github.com/ethereum/go-ethereum/core/types/goattypes"
+	goatcrypto "github.com/goatnetwork/goat/pkg/crypto"
 	"github.com/goatnetwork/goat/x/relayer/types"
 )
 
@@ -25,6 +27,16 @@ func (k Keeper) ProcessRelayerRequest(ctx context.Context, req goattypes.Relayer
 			return err
 		}
 		if exists {
+			continue
+		}
+
+		// the vote key should be unique, the genesis importing requires it
+		used, err := k.hasVoteKeyHash(sdkctx, add.Pubkey.Bytes())
+		if err != nil {
+			return err
+		}
+		if used {
+			k.Logger().Info("Ignore the voter with a duplicated vote key", "voter", addr)
 			continue
 		}
 		if err := k.Voters.Set(sdkctx, addr, types.Voter{
@@ -96,4 +108,19 @@ func (k Keeper) ProcessRelayerRequest(ctx context.Context, req goattypes.Relayer
 
 	sdkctx.EventManager().EmitEvents(events)
 	return nil
+}
+
+// hasVoteKeyHash checks if there is a voter using the vote key of the hash
+// a pending voter has the hash of the key only, see NewVoter
+func (k Keeper) hasVoteKeyHash(ctx context.Context, hash []byte) (bool, error) {
+	var used bool
+	err := k.Voters.Walk(ctx, nil, func(_ string, voter types.Voter) (bool, error) {
+		keyHash := voter.VoteKey
+		if voter.Status != types.VOTER_STATUS_PENDING {
+			keyHash = goatcrypto.SHA256Sum(voter.VoteKey)
+		}
+		used = bytes.Equal(keyHash, hash)
+		return used, nil
+	})
+	return used, err
 }
